@@ -8,7 +8,7 @@ import re
 import time
 import z3
 from .mir import Place
-from .types import parse_type, strip_generics, turbofish_args, canon_callee, INT
+from .rtypes import parse_type, strip_generics, turbofish_args, canon_callee, INT
 from .values import *
 
 TRACE = int(os.environ.get('MIRSYM_TRACE', '0'))
@@ -27,6 +27,9 @@ class Infeasible(Exception):
 class Panic(Exception):
     def __init__(self, msg):
         self.msg = msg
+
+
+START = object()
 
 
 class Frame:
@@ -65,10 +68,12 @@ class NativeFrame:
         self.dest = dest
         self.ret_bb = ret_bb
         self.fn = None
+        self.pending = START
 
     def __mirsym_clone__(self, memo):
         r = NativeFrame.__new__(NativeFrame)
         memo[id(self)] = r
+        r.pending = clone(self.pending, memo)
         r.handler = self.handler
         r.data = clone(self.data, memo)
         r.dest = clone(self.dest, memo)
@@ -109,9 +114,6 @@ class ValLV:
 
     def ptr(self):
         return Ptr(Cell(val=self.val), 0)
-
-
-START = object()
 
 
 class SolverCache:
@@ -493,7 +495,8 @@ class Executor:
         self.const_cache = {}
         self.stats = {'paths': 0, 'forks': 0, 'steps': 0, 'infeasible': 0}
         self.deadline = time.time() + timeout_s if timeout_s else None
-        from . import models
+        from . import models, models_iter
+        self.all_orders = False
         self.models = models.REGISTRY
         self.model_pats = models.PATTERNS
         self.conts = models.CONTS
@@ -550,8 +553,9 @@ class Executor:
             except Fork as fk:
                 self.stats['forks'] += 1
                 base = st.choices
+                src = getattr(fk, 'base', st)
                 for i in reversed(range(fk.n)):
-                    s2 = st.clone()
+                    s2 = src.clone()
                     s2.choices = base + [i]
                     work.append(s2)
                 return
@@ -581,7 +585,15 @@ class Executor:
     def step(self, st):
         fr = st.frames[-1]
         if isinstance(fr, NativeFrame):
-            self.conts[fr.handler](st, fr, START)
+            snap = st.clone()
+            snap.choices = list(st.choices)
+            rv = fr.pending
+            fr.pending = START
+            try:
+                self.conts[fr.handler](st, fr, rv)
+            except Fork as fk:
+                fk.base = snap
+                raise
             return
         blk = fr.fn.blocks[fr.bb]
         if fr.idx < len(blk.stmts):
@@ -721,6 +733,9 @@ class Executor:
         if txt.startswith("'") and txt.endswith("'"):
             c = _unescape(txt[1:-1])
             return Int(z3.BitVecVal(ord(c), 32), False)
+        if txt.startswith('ZeroSized: '):
+            t = txt[11:].strip()
+            return Struct(t, {}) if t.startswith('{closure@') else Opaque('zst', t)
         if 'promoted[' in txt:
             return self.promoted(st, fr, txt)
         m = re.match(r'^(u8|u16|u32|u64|u128|usize|i8|i16|i32|i64|i128|isize)::(MAX|MIN|BITS)$', txt.split('::', 1)[-1] if txt.startswith(('core::', 'std::')) and txt.count('::') > 1 else txt)
@@ -1118,7 +1133,7 @@ class Executor:
             return
         caller = st.frames[-1]
         if isinstance(caller, NativeFrame):
-            self.conts[caller.handler](st, caller, v)
+            caller.pending = v
             return
         if fr.dest is not None:
             fr.dest.set(v, st)
